@@ -340,13 +340,35 @@ Inductive container := CList    (* raw_results=[i[1] for i in res], raw_index fr
                      | CDictOfScans. (* {k: v.variables.T for k, v in res}: dict of inner scans *)
 Inductive par_arg := ParByFlag      (* scan.*: parallel=parallel, pool size = cpu_count *)
                    | ParMaxWorkers. (* mc.*: always the pool, max_workers=max_workers *)
+(** what an entry point does with its [y0] argument (initial values for the whole scan):
+    [Y0IntoModel] = [if y0 is not None: model.update_variables(y0)] before fanning out, the worker gets
+    [y0=None] (the row's own initial values, written afterwards into the task's copy, win; initial
+    assignments see y0); [Y0ToWorker] = nothing is written, the worker is handed [y0=y0] and starts
+    the integration from it (the shape of seeded change C09-4) *)
+Inductive y0_policy := Y0IntoModel | Y0ToWorker | Y0Unknown.
 Record entry_point := mkEP {
   ep_id : ep_name;
   ep_worker : wname;          (* default of the [worker] argument *)
   ep_container : container;
   ep_par : par_arg;
-  ep_checks_dups : bool       (* starts with [_require_unique_index(<table>)] *)
+  ep_checks_dups : bool;      (* starts with [_require_unique_index(<table>)] *)
+  ep_y0 : y0_policy;          (* how [y0] reaches the rows *)
+  ep_cache_check : bool       (* has [if cache is not None: _require_unique_index(<table>)] in front *)
 }.
+(** a cached run keys the result files by the row label: safe iff the index is tested before *)
+Definition ep_cache_safe (ep : entry_point) : bool := ep_checks_dups ep || ep_cache_check ep.
+Definition ep_name_eqb (a b : ep_name) : bool :=
+  match a, b with
+  | ScanSteadyState, ScanSteadyState | ScanTimeCourse, ScanTimeCourse | ScanProtocol, ScanProtocol
+  | ScanProtocolTimeCourse, ScanProtocolTimeCourse | McSteadyState, McSteadyState | McTimeCourse, McTimeCourse
+  | McProtocol, McProtocol | McProtocolTimeCourse, McProtocolTimeCourse | McScanSteadyState, McScanSteadyState => true
+  | _, _ => false
+  end.
+Definition y0_policy_of (eps : list entry_point) (id : ep_name) : y0_policy :=
+  match find (fun ep => ep_name_eqb (ep_id ep) id) eps with
+  | Some ep => ep_y0 ep
+  | None => Y0Unknown
+  end.
 
 (** ---- time axes of the protocol worker (lengths only need the number of steps) ---- *)
 Section Axes.
